@@ -8,7 +8,7 @@ ROMs: list / dict / function data, in-range reads equal the data, illegal reads 
 import itertools
 import pyrtl
 from pyrtl import Input, Output, Const, MemBlock, RomBlock
-from vlib import simrun, gen, passlib
+from vlib import simrun, gen, passlib, memsynth
 from vlib.common import proof_gate, conclude
 from vlib.serialize import Ser
 
@@ -180,6 +180,11 @@ def repeated_use(ctx, sims=None):
         h2 = history(rng, aw, dw, nrd, nwr, 8)
         # the second history reads what the first one wrote
         h1[0]['we0'] = 1                      # at least one write, to an address the second history reads
+        if aw <= 4:
+            # the last word of the array is written too (the whole-array view below has to show it)
+            h1[-1].update({'we0': 1, 'wa0': (1 << aw) - 1, 'wd0': gen.rand_value(rng, dw) | 1})
+            if nwr > 1 and h1[-1].get('wa1') == h1[-1]['wa0']:
+                h1[-1]['we1'] = 0
         hot = [s_['wa0'] for s_ in h1 if s_['we0']]
         for s_ in h2:
             if hot and rng.random() < 0.7:
@@ -211,6 +216,25 @@ def repeated_use(ctx, sims=None):
                                           'the array now holds %d' % (simcls.__name__, len(h1), a, got, final1.get(a, 0)),
                                           dict(replay, simulator=simcls.__name__))
                             break
+                    if aw <= 4:
+                        # the view as a whole (len, iteration, dict(), ==): every non-zero word of the array, the last one too
+                        whole = {a: v for a, v in dict(view).items() if v}
+                        want_whole = {a: v for a, v in final1.items() if v}
+                        if whole != want_whole:
+                            ctx.violation('mem-view-whole:' + simcls.__name__, '%s: dict(inspect_mem(mem)) after %d cycles has the non-zero words %r, '
+                                          'the array holds %r' % (simcls.__name__, len(h1), sorted(whole.items())[:6], sorted(want_whole.items())[:6]),
+                                          dict(replay, simulator=simcls.__name__))
+                        elif not isinstance(view, dict):
+                            top = (1 << aw) - 1
+                            full = {a: final1.get(a, 0) for a in range(1 << aw)}
+                            other = dict(full)
+                            other[top] ^= 1
+                            if len(view) != (1 << aw) or not (view == full) or (view == other):
+                                ctx.violation('mem-view-whole:' + simcls.__name__, '%s: the inspect_mem view of a %d-word memory has len %d, '
+                                              'view == contents is %s, view == contents-with-the-last-word-changed is %s' % (
+                                                  simcls.__name__, 1 << aw, len(view), view == full, view == other),
+                                              dict(replay, simulator=simcls.__name__))
+                        ctx.count('mem-view-whole', simcls.__name__)
                     # what the trace recorded as the memory's initial contents (used by output_verilog_testbench) is still
                     # what the simulation started from, whatever was written since
                     rec = getattr(sim1.tracer, 'init_memvalue', None)
@@ -557,6 +581,7 @@ def main(ctx):
     ctx.evaluations += special_shapes(ctx)
     ctx.evaluations += memories_across_reset(ctx)
     ctx.evaluations += repeated_use(ctx)
+    memsynth.several_memories(ctx, ctx.n(6, 40), same_name=False)
     ex = exhaustive_two_word(ctx)
     ctx.evaluations += ex
     ctx.extra['exhaustive_two_word_transitions'] = ex
